@@ -293,7 +293,8 @@ def render_exp(e, t=None, prog=None):
         if t and t.get("m") == 1 and not t.get("a"):
             # a literal for a typed map: quoted keys
             return "{" + ", ".join("%s: %s" % (json.dumps(f["n"]), render_exp(f["e"], None, prog)) for f in e["fs"]) + "}"
-        return "{" + ", ".join("%s: %s" % (f["n"], render_exp(f["e"], None, prog)) for f in e["fs"]) + "}"
+        ftypes = {f["n"]: f["t"] for f in struct_fields(prog, t["b"])} if (t and prog and is_struct(prog, t)) else {}
+        return "{" + ", ".join("%s: %s" % (f["n"], render_exp(f["e"], ftypes.get(f["n"]), prog)) for f in e["fs"]) + "}"
     if k == "split":
         return "split " + render_exp(e["e"], None, prog)
     raise TypeError(e)
